@@ -4,12 +4,6 @@ From Coq Require Import List Bool NArith Lia.
 Import ListNotations.
 From JS Require Import Model.Base Model.Shape Model.Subset Proofs.BaseFacts Proofs.ShapeFacts.
 
-Fixpoint forall2b {A B} (f : A -> B -> bool) (l : list A) (l' : list B) : bool :=
-  match l, l' with
-  | [], [] => true
-  | x :: r, y :: r' => f x y && forall2b f r r'
-  | _, _ => false
-  end.
 
 Definition obj_members_sub (c c' : list (key * shape)) : bool :=
   forallb (fun kv => match map_get (fst kv) c' with
@@ -79,8 +73,6 @@ Lemma is_subset_oneof_oneof vs o ws o' :
 Proof. simpl. rewrite oneof_fix_eq. reflexivity. Qed.
 
 (* ---------- C10 ---------- *)
-Lemma set_flag_same' s : set_flag (is_optional s) s = s.
-Proof. destruct s; reflexivity. Qed.
 
 Lemma sset_subset_refl vs : sset_subset vs vs = true.
 Proof.
